@@ -1,5 +1,6 @@
 import Driver.CdrFileIO
 import Driver.DiamIO
+import Driver.ChargingIO
 /-
   Line-protocol driver: one operation per input line, one canonical line per operation.
   The first token selects the stream (model); stateful streams keep their state in `DState`.
@@ -10,12 +11,14 @@ open Chf Chf.Driver
 structure DState where
   abmf : Abmf.Store := []
   rf : List Rating.Tariff := []
+  chf : Charging.State := {}
 
 def step (s : DState) (line : String) : DState × String :=
   match (line.trimAscii.toString.splitOn " ").filter (· ≠ "") with
   | "cdrfile" :: t => (s, cdrfileOp t)
   | "abmf" :: t => let (a, o) := abmfOp s.abmf t; ({ s with abmf := a }, o)
   | "rf" :: t => let (a, o) := rfOp s.rf t; ({ s with rf := a }, o)
+  | "chf" :: t => let (a, o) := chfOp noSplit s.chf t; ({ s with chf := a }, o)
   | "abmfjudge" :: t => (s, abmfJudge t)
   | "rfjudge" :: t => (s, rfJudge t)
   | _ => (s, "bad-op")
